@@ -1068,6 +1068,17 @@ pub mod verif_hooks {
         )
     }
 
+    /// Records `"final|<store_dump(rs)>"` when recording is on.
+    pub fn observe_final(rs: &RelationSet) {
+        let mut g = match HISTORY.lock() {
+            Ok(g) => g,
+            Err(e) => e.into_inner(),
+        };
+        if let Some((_, log)) = g.as_mut() {
+            log.push(format!("final|{}", store_dump(rs)));
+        }
+    }
+
     /// Records `"<thread index>|<relation token>|<p,q or ->"` when recording is on.
     pub fn observe_add(_n: &Uint, r: &Relation, pq: &Option<(u64, u64)>) {
         let mut g = match HISTORY.lock() {
